@@ -14,7 +14,7 @@ REPO = os.environ.get("VERIF_REPO", "/repo")
 CACHE = os.environ.get("VERIF_CACHE", os.path.join(VERIF, ".cache"))
 COQ = os.path.join(VERIF, "coq")
 TARGET = os.path.join(CACHE, "target")
-EVID = os.path.join(VERIF, "evidence")
+EVID = os.environ.get("VERIF_EVIDENCE", os.path.join(VERIF, "evidence"))
 REPLAY = os.path.join(EVID, "replay")
 NCPU = min(16, os.cpu_count() or 4)
 GUARD = "--cfg imdl_verif"
